@@ -9,7 +9,7 @@ from vlib import *
 
 FAMILY = ["C01", "C06", "C10", "C11", "C12", "C16", "C17"]
 
-INVS = "TypeOK ReadBack LiveIsRef LocSound UserSnapImmutable PunchSafe ChainWF CleanerNeverPicks"
+INVS = "TypeOK ChainWF ReadBack LiveIsRef LocSound UserSnapImmutable PunchSafe CleanerNeverPicks"
 PROPS_ACT = "RevExact RevCounts RefusedUnchanged DeleteNeutral"
 
 
@@ -39,30 +39,43 @@ def cfgd(**kw):
     return d
 
 
+# the replica's side of a rebuild: sync of snapshot files under the open replica, reload,
+# UpdateLUNMap in one piece or with I/O between its two sections, promotion
+REBUILD_CFG = cfgd(MaxNB=2, InitNB=2, SPB=1, MaxV=1, MaxRev=3, MaxHead=1, MaxLen=2,
+                   Ops={"read", "rebuild", "reopen", "meta", "mode"}, Punch={True})
+
 # per property: exhaustive configurations (quick, thorough), mutants that TLC must refute
 # (thorough only), generator profile and which trace-spec rules / events are in scope.
 MC = {
-    "C01": dict(quick=[cfgd(MaxV=1, Ops={"read", "reopen"}, Punch={True, False})],
+    "C01": dict(quick=[cfgd(MaxV=1, Ops={"read", "reopen"}, Punch={True, False}),
+                       cfgd(MaxNB=1, InitNB=1, SPB=2, MaxV=1, MaxHead=2, MaxLen=3, MaxRev=3, Ops={"unmap", "revert", "read"})],
                 thorough=[cfgd(MaxRev=4, Ops={"read", "reopen", "revert"}, Punch={True, False}),
-                          cfgd(MaxNB=3, InitNB=3, SPB=1, MaxV=1, MaxHead=3, MaxLen=4, MaxRev=4, Ops={"read"})],
-                mutants=[("removeBase", "ReadBack|LiveIsRef")]),
-    "C06": dict(quick=[cfgd(SPB=1, MaxRev=4, Ops={"revert"})],
+                          cfgd(MaxNB=3, InitNB=3, SPB=1, MaxV=1, MaxHead=3, MaxLen=4, MaxRev=4, Ops={"read"}),
+                          cfgd(MaxNB=2, InitNB=2, MaxV=1, SPB=2, MaxRev=3, MaxHead=1, MaxLen=2, Ops={"read", "unmap", "reopen"}),
+                          REBUILD_CFG],
+                mutants=[("removeBase", "ReadBack|LiveIsRef", {}),
+                         ("mergeTakesScan", "LocSound|ReadBack", "rebuild")]),
+    "C06": dict(quick=[cfgd(SPB=1, MaxRev=4, Ops={"revert"}),
+                       cfgd(MaxNB=2, InitNB=2, SPB=1, MaxV=1, MaxHead=2, MaxLen=3, MaxRev=3, Ops={"unmap", "revert", "read"})],
                 thorough=[cfgd(MaxRev=5, MaxHead=3, MaxLen=3, Ops={"revert", "reopen"}),
                           cfgd(SPB=1, MaxV=1, MaxHead=3, MaxLen=4, MaxRev=5, Ops={"revert"})],
-                mutants=[("punchWrongOwner", "PunchSafe|UserSnapImmutable")]),
-    "C10": dict(quick=[cfgd(MaxNB=1, InitNB=1, SPB=1, MaxV=1, MaxRev=5, Ops={"mode", "meta", "reopen"})],
+                mutants=[("punchWrongOwner", "PunchSafe|UserSnapImmutable", dict(MaxNB=2, InitNB=2, SPB=1, MaxHead=2, MaxLen=3)),
+                         ("unmapAllFiles", "UserSnapImmutable", dict(MaxNB=2, InitNB=2, SPB=1, MaxV=1, MaxHead=2, MaxLen=3,
+                                                                   MaxRev=3, Ops={"unmap", "revert", "read"}))]),
+    "C10": dict(quick=[cfgd(MaxNB=1, InitNB=1, SPB=1, MaxV=1, MaxRev=5, Ops={"mode", "meta", "reopen"}), REBUILD_CFG],
                 thorough=[cfgd(MaxNB=1, InitNB=1, SPB=2, MaxV=1, MaxRev=8, MaxHead=3, MaxLen=4,
                                Ops={"mode", "meta", "reopen", "revert"})],
-                mutants=[("writeInAnyMode", "RefusedUnchanged|RevExact|ReadBack|LiveIsRef")]),
+                mutants=[("writeInAnyMode", "RefusedUnchanged|RevExact|ReadBack|LiveIsRef", dict(AddOps={"mode", "reopen"}))]),
     "C11": dict(quick=[cfgd(SPB=1, MaxV=1, MaxHead=3, MaxLen=4, MaxRev=4, Ops=set())],
                 thorough=[cfgd(SPB=1, MaxV=2, MaxHead=4, MaxLen=5, MaxRev=5, Ops={"read"}, Names={"a", "b", "c"}),
                           cfgd(SPB=2, MaxV=1, MaxHead=3, MaxLen=4, MaxRev=4, Ops={"read", "reopen"})],
-                mutants=[("removeBase", "ReadBack|LiveIsRef")]),
+                mutants=[("removeBase", "ReadBack|LiveIsRef", {})]),
     "C12": dict(quick=[cfgd(MaxNB=1, InitNB=1, SPB=1, MaxV=1, MaxHead=3, MaxLen=4, MaxRev=3,
-                            Ops={"revert", "reopen", "dup", "meta"})],
+                            Ops={"revert", "reopen", "dup", "meta", "replace"})],
                 thorough=[cfgd(MaxNB=1, InitNB=1, SPB=1, MaxV=1, MaxHead=4, MaxLen=5, MaxRev=3, Names={"a", "b", "c"},
-                               Ops={"revert", "reopen", "dup", "meta", "resize", "mode"})],
-                mutants=[("dupSnapshotClobbers", "RefusedUnchanged|ChainWF")]),
+                               Ops={"revert", "reopen", "dup", "meta", "resize", "mode", "replace"})],
+                mutants=[("dupSnapshotClobbers", "RefusedUnchanged|ChainWF", dict(AddOps={"dup"})),
+                         ("replaceUnchecked", "ChainWF|RefusedUnchanged", {})]),
     "C16": dict(quick=[cfgd(MaxNB=3, InitNB=1, SPB=1, MaxV=1, MaxRev=3, Ops={"resize", "reopen", "read"})],
                 thorough=[cfgd(MaxNB=3, InitNB=1, SPB=2, MaxV=1, MaxRev=4, MaxHead=3, MaxLen=4,
                                Ops={"resize", "reopen", "read", "revert"})],
@@ -71,7 +84,7 @@ MC = {
                             Ops={"mode", "meta", "reopen", "read", "revert", "resize"})],
                 thorough=[cfgd(MaxNB=1, InitNB=1, SPB=2, MaxV=1, MaxRev=4, MaxHead=3, MaxLen=4,
                                Ops={"mode", "meta", "reopen", "read", "revert", "resize", "dup"})],
-                mutants=[("writeInAnyMode", "RefusedUnchanged|RevExact|ReadBack|LiveIsRef")]),
+                mutants=[("writeInAnyMode", "RefusedUnchanged|RevExact|ReadBack|LiveIsRef", dict(AddOps={"mode", "reopen"}))]),
 }
 
 PROFILE = {"C01": "mixed", "C06": "multiblock", "C10": "mixed", "C11": "cleaner", "C12": "manage",
@@ -79,16 +92,17 @@ PROFILE = {"C01": "mixed", "C06": "multiblock", "C10": "mixed", "C11": "cleaner"
 
 # TLC random-walk scenario source (SPB = 8 like the code)
 SIM_OPS = {
-    "C01": {"read", "reopen", "revert", "resize"},
-    "C06": {"read", "revert", "reopen"},
+    "C01": {"read", "reopen", "revert", "resize", "unmap"},
+    "C06": {"read", "revert", "reopen", "unmap"},
     "C10": {"mode", "meta", "reopen"},
     "C11": {"read", "reopen"},
-    "C12": {"revert", "reopen", "dup", "meta", "resize", "mode"},
+    "C12": {"revert", "reopen", "dup", "meta", "resize", "mode", "replace"},
     "C16": {"resize", "reopen", "read"},
     "C17": {"mode", "meta", "reopen", "read", "revert", "resize", "dup"},
 }
 
 DELETE_EVS = {"PrepareRemove", "Coalesce", "RemoveDisk", "CleanerPick"}
+REBUILD_EVS = {"SyncFile", "UpdateLUNMap", "LunMapScan", "LunMapMerge"}
 STRUCT_RULES = {"Chain", "EngineDisks", "DirNames", "DirMeta", "Head", "VolumeMeta"}
 
 
@@ -100,7 +114,8 @@ def attribute(f):
         props.add("C17")
         props |= {"Write": {"C01"}, "Read": {"C01"}, "Snapshot": {"C12"}, "Revert": {"C12", "C06"},
                   "PrepareRemove": {"C11"}, "RemoveDisk": {"C11"}, "Coalesce": {"C11"}, "Resize": {"C16"},
-                  "SetRev": {"C10"}, "Open": {"C12"}, "Reload": {"C12"}}.get(ev, set())
+                  "SetRev": {"C10"}, "Open": {"C12"}, "Reload": {"C12"}, "ReplaceDisk": {"C12"},
+                  "Unmap": {"C01"}, "UpdateLUNMap": {"C01"}, "LunMapScan": {"C01"}, "LunMapMerge": {"C01"}}.get(ev, set())
     if "ReadData" in rules:
         props.add("C01")
     data_rules = rules & {"LiveIsRef", "DirData", "UserSnapImmutable"}
@@ -136,6 +151,12 @@ def attribute(f):
         props |= {"C12", "C17"}
     if "Candidates" in rules:
         props.add("C11")
+        # a candidate that is a retained user snapshot, or whose merge target is one: the
+        # cleaner would rewrite a user-created snapshot (C06)
+        ch, users = f["spec"].get("chain") or [], set(f["spec"].get("users") or [])
+        for c in f["logged"].get("cand") or []:
+            if c in ch and (c in users or (ch.index(c) > 0 and ch[ch.index(c) - 1] in users)):
+                props.add("C06")
     if spec_refused and (rules - {"Result"}):
         props.add("C17")        # a call that had to be refused had side effects
         props.add("C12")
@@ -172,7 +193,8 @@ def context_of(f):
     return ",".join(ctx)
 
 
-OPMAP = {"Write": ("s0", "n", "v"), "Read": ("s0", "n"), "Snapshot": ("name", "user"),
+OPMAP = {"Write": ("s0", "n", "v"), "Read": ("s0", "n"), "Unmap": ("s0", "n"), "Snapshot": ("name", "user"),
+         "ReplaceDisk": ("target", "source"), "UpdateLUNMap": (), "LunMapScan": (), "LunMapMerge": (),
          "PrepareRemove": ("name",), "Coalesce": ("name",), "RemoveDisk": ("name",), "Revert": ("name",),
          "Resize": ("nb",), "Close": (), "Open": (), "Reload": (), "SetPreload": ("p",), "SetPunch": ("p",),
          "SetMode": ("mode",), "SetRebuilding": ("r",), "SetCheckpoint": ("name",), "SetRev": ("c",),
@@ -257,9 +279,13 @@ def event_to_op(e):
         return {"ev": "Burst", "n": e["a"]["writers"]}
     if e["ev"] == "Open" and "oks" in (e.get("x") or {}):
         return {"ev": "OpenRace"}
+    if e["ev"] == "Open" and (e.get("x") or {}).get("race"):
+        return {"ev": "CloseOpenRace"}
     op.update(e.get("a") or {})
     for k in ("src", "punch", "cp"):
         op.pop(k, None)
+    if e["ev"] == "SyncFile":
+        op["blocks"] = [(d[0] if d else 0) for d in op.pop("data", [])]
     return op
 
 
@@ -267,14 +293,23 @@ def nontrivial(prop, evs):
     """does an execution exercise the property beyond plain reads?"""
     names = [e["ev"] for e in evs]
     need = {"C01": {"Write"}, "C06": {"Snapshot", "Revert"}, "C10": {"Write"}, "C11": DELETE_EVS,
-            "C12": {"Snapshot", "Revert", "RemoveDisk", "PrepareRemove"}, "C16": {"Resize"},
+            "C12": {"Snapshot", "Revert", "RemoveDisk", "PrepareRemove", "ReplaceDisk"}, "C16": {"Resize"},
             "C17": {"SetMode", "Close", "Open"}}[prop]
     return any(n in need for n in names)
 
 
-def run(prop, tier, seed, replay=None):
+def run(prop, tier, seed, replay=None, embed=False):
+    """embed (prop = "C07"): the replica's side of a rebuild for the cluster family's C07 check -- only
+    the generator profile 'rebuild', no model checking here, no evidence file, no verdict lines;
+    returns (violations, known, stats)"""
     t0 = time.time()
     quick = tier == "quick"
+    if replay is not None and prop == "C01" and (json.load(open(replay)).get("scenario") or {}).get("layer") == "L1":
+        import fam_controller
+        v, k, st = fam_controller.run("C01", tier, seed, replay=replay, embed=True)
+        for path, rec in v:
+            print("VIOLATION property=C01 replay=%s" % path)
+        return 1 if v else 0
     build_harness(["replicadrv"])
     work = scratch("rep.")
     assumptions = [
@@ -286,7 +321,7 @@ def run(prop, tier, seed, replay=None):
     try:
         mc_states = mc_trans = 0
         mc_runs = []
-        if replay is None and not os.environ.get("VERIF_DEV_SKIP_MC"):
+        if replay is None and not embed and not os.environ.get("VERIF_DEV_SKIP_MC"):
             # ---- (A) exhaustive model checking
             for c in MC[prop]["quick" if quick else "thorough"]:
                 r = run_tlc_mc("MCReplica", mc_cfg(c), timeout=900 if quick else 7200)
@@ -301,16 +336,13 @@ def run(prop, tier, seed, replay=None):
                                     wall_s=round(r["wall"], 1)))
                 log("[mc] %s distinct=%d generated=%d %.0fs" % (prop, r["distinct"], r["generated"], r["wall"]))
             if not quick:
-                for bug, expect in MC[prop]["mutants"]:
-                    c = dict(MC[prop]["quick"][0])
-                    c["Bug"] = {bug}
+                for bug, expect, over in MC[prop]["mutants"]:
+                    c = dict(REBUILD_CFG) if over == "rebuild" else dict(MC[prop]["quick"][0])
+                    over = {} if over == "rebuild" else dict(over)
                     c["MaxRev"] = max(c["MaxRev"], 5)
-                    if bug == "writeInAnyMode":
-                        c["Ops"] = set(c["Ops"]) | {"mode", "reopen"}
-                    if bug == "dupSnapshotClobbers":
-                        c["Ops"] = set(c["Ops"]) | {"dup"}
-                    if bug == "punchWrongOwner":
-                        c.update(MaxNB=2, InitNB=2, SPB=1, MaxHead=2, MaxLen=3)
+                    c["Ops"] = set(c["Ops"]) | set(over.pop("AddOps", set()))
+                    c.update(over)
+                    c["Bug"] = {bug}
                     r = run_tlc_mc("MCReplica", mc_cfg(c), timeout=1800)
                     if r["ok"] or not re.search(expect, r["violated"] or ""):
                         raise HarnessError("self-check failed: mutant %s was not refuted (%s)" % (bug, r["violated"]))
@@ -334,22 +366,26 @@ def run(prop, tier, seed, replay=None):
             per = 3 if quick else 40
             length = 14 if quick else 25
             nsim = 24 if quick else 400
-            sims = behaviours_to_scenarios(
+            sims = [] if embed else behaviours_to_scenarios(
                 run_tlc_simulate("MCReplica", sim_cfg(SIM_OPS[prop]), nsim, 18 if quick else 30, seed), 100000)
+            if embed:
+                nproc, per = (12, 2) if quick else (24, 20)
             cmds = []
             for i in range(nproc):
                 pdir = os.path.join(work, "p%d" % i)
                 os.makedirs(pdir)
                 out = os.path.join(work, "t%d.ndjson" % i)
                 parts.append(out)
-                prof = PROFILE[prop]
+                prof = "rebuild" if embed else PROFILE[prop]
                 if prop == "C11" and i % 2 == 1:
                     prof = "shapes"         # uniform sample of chain shapes x checkpoint positions
+                if prop in ("C01", "C06", "C10") and i % 4 == 3:
+                    prof = "rebuild"        # the replica's side of a rebuild (sync, reload, UpdateLUNMap)
                 cmd = [os.path.join(BUILD, "replicadrv"), "-out", out, "-work", pdir,
                        "-gen", str(per), "-len", str(length), "-seed", str(seed * 1000 + i),
                        "-base", str(i * 1000), "-profile", prof]
                 mine = sims[i::nproc]
-                if i == 0:      # hand-written sequences (name reuse, multi-owner writes, revert + collision)
+                if i == 0 and not embed:      # hand-written sequences (name reuse, multi-owner writes, revert + collision)
                     for line in open(os.path.join(VERIF, "scenarios", "replica_directed.ndjson")):
                         if line.strip():
                             mine = mine + [json.loads(line)]
@@ -385,10 +421,13 @@ def run(prop, tier, seed, replay=None):
                 e = json.loads(line)
                 by_t.setdefault(e["t"], []).append(e)
 
-        violations, known, others = [], [], []
+        violations, known, others, unexplained = [], [], [], []
         for f_ in result["failed"]:
             if "SpecNotEnabled" in f_["rules"]:
-                raise HarnessError("specification has no step for record %s" % json.dumps(f_)[:2000])
+                # the specification cannot take the recorded step at all: inconclusive for this
+                # execution (exit 2 at the end unless another execution shows a violation)
+                unexplained.append(f_)
+                continue
             props = attribute(f_)
             # history attribution: wrong data / a refused I/O after an earlier successful grow
             # (revert) in the same execution is also C16's (C06's) business
@@ -399,13 +438,23 @@ def run(prop, tier, seed, replay=None):
                 props.add("C16")
             if datafail and any(e["ev"] == "Revert" for e in hist):
                 props.add("C06")
+            # a retained user snapshot / the live image damaged after an earlier deletion in the
+            # same execution (the deletion's bookkeeping is a suspect): also C11's business
+            if (set(f_["rules"]) & {"DirData", "UserSnapImmutable", "LiveIsRef", "ReadData"}) and \
+                    any(e["ev"] == "RemoveDisk" for e in hist):
+                props.add("C11")
+            # wrong data / counter / chain once the sync agent has rewritten the files: the rebuilt
+            # replica is not what it was rebuilt from (C07)
+            if any(e["ev"] == "SyncFile" for e in hist) and \
+                    (datafail or set(f_["rules"]) & (STRUCT_RULES | {"Rev", "Result"})):
+                props.add("C07")
             sig = dict(rule=sorted(f_["rules"]), site=f_["ev"], context=context_of(f_))
             if prop not in props:
                 others.append(dict(t=f_["t"], seq=f_["seq"], sig=sig, properties=sorted(props)))
                 continue
             evs = by_t[f_["t"]]
             init = evs[0]
-            scenario = dict(id=f_["t"], nb=init["a"]["nb"], punch=init["a"]["punch"], src="replay",
+            scenario = dict(id=f_["t"], nb=init["a"]["nb"], punch=init["a"]["punch"], src="replay", layer="L0",
                             ops=[event_to_op(e) for e in evs[1:] if e["seq"] <= f_["seq"] and not e.get("partial")])
             k = match_known(prop, sig)
             rec = dict(property=prop, signature=sig, failed_record=f_, scenario=scenario)
@@ -415,6 +464,24 @@ def run(prop, tier, seed, replay=None):
                 path = save_replay(prop, "%s-%s" % (tier, fingerprint(scenario)), rec)
                 violations.append((path, rec))
 
+        l1 = None
+        if prop == "C01" and replay is None and not embed:
+            # the controller's range check (harness L1): out-of-range reads and writes in every
+            # membership of a bootstrap; refused, no replica touched, nothing changed
+            import fam_controller
+            v1, k1, l1 = fam_controller.run("C01", tier, seed, embed=True)
+            violations += v1
+            known += k1
+        if embed:
+            if unexplained and not violations:
+                raise HarnessError("specification has no step for %d record(s), first: %s"
+                                   % (len(unexplained), json.dumps(unexplained[0])[:3000]))
+            cnt = lambda ev: sum(1 for evs in by_t.values() for e in evs if e["ev"] == ev and e["res"] == "ok")
+            return violations, known, dict(executions=result["traces"], records=result["records"],
+                                           files_synced=cnt("SyncFile"), reloads=cnt("Reload"),
+                                           lunmap_updates=cnt("UpdateLUNMap") + cnt("LunMapMerge"),
+                                           lunmap_updates_with_io_between_sections=cnt("LunMapMerge"),
+                                           other_property_failures=len(others))
         # ---- evidence
         fps, nontriv = set(), set()
         samples = []
@@ -440,6 +507,8 @@ def run(prop, tier, seed, replay=None):
             records_validated=result["records"], events_by_result=evcount, model_checking_runs=mc_runs,
             failures_in_scope=len(violations) + len(known), failures_other_properties=others[:20],
             exhaustive=False)
+        if l1:
+            coverage["controller_range_check_L1"] = l1
         if replay is not None:
             coverage["states"] = coverage["states"] or 1
             coverage["transitions"] = coverage["transitions"] or 1
@@ -456,6 +525,9 @@ def run(prop, tier, seed, replay=None):
         log("[%s] %s: %d executions, %d records, %d violations, %d known, %d other-property failures, %.0fs" % (
             prop, tier, result["traces"], result["records"], len(violations), len(known), len(others),
             time.time() - t0))
+        if unexplained and not violations:
+            raise HarnessError("specification has no step for %d record(s), first: %s"
+                               % (len(unexplained), json.dumps(unexplained[0])[:3000]))
         return 1 if violations else 0
     finally:
         shutil.rmtree(work, ignore_errors=True)
